@@ -562,6 +562,18 @@ func history(c *common.Ctx, cf *common.CaseFile, r *common.Rand, idx int, script
 			c.Violate(key("ordered"), fmt.Sprintf("one %s event moved the primary from transaction %d to %d", e.Kind, ptB, ptA), rep)
 		}
 		g.settle(true)
+		// nothing a node did not publish is in its log: the newest transaction file is the node's position
+		for _, nd := range []*cluster.Node{g.p, g.rn, g.o} {
+			infos, _ := lfs.ListLTX(filepath.Join(nd.Dir, "dbs", dbName))
+			if len(infos) == 0 {
+				continue
+			}
+			last := infos[len(infos)-1]
+			nt, nc := pos(nd)
+			if last.Max > nt || (last.Max == nt && last.Valid && last.Post != nc) {
+				c.Violate(key("log-beyond-position:"+nd.Name), fmt.Sprintf("after %s node %s is at (%d,%016x) but its log ends with %s (%d-%d, post %016x): a transaction that was not published is in the log and would be replayed at the next restart", e.Kind, nd.Name, nt, nc, last.Name, last.Min, last.Max, last.Post), rep)
+			}
+		}
 		evs = append(evs, e)
 		obs = append(obs, g.observe(code))
 		c.Evaluations++
